@@ -84,29 +84,33 @@ def run(rep: vk.Report):
     paths = {}
     unsupported = 0
     errors = {}
-    for i in range(n):
+    fixed = common.vectorised_worklist()
+    for i in range(n + len(fixed)):
         g = gen.Gen(random.Random(rng.random()), profile=rng.choice(["poly", "smooth", "smooth", "all"]))
-        try:
-            es = special_exprs(g) if rng.random() < 0.6 else [g.expr(rng.choice([2, 3])) for _ in range(rng.randint(1, 3))]
-        except Exception as ex:
-            errors["gen:" + type(ex).__name__] = errors.get("gen:" + type(ex).__name__, 0) + 1
-            continue
-        allv = {}
-        for e in es:
-            for v in e.get_variables():
-                allv[v.name] = v
-        vs = [allv[k] for k in sorted(allv)]
-        # natural problem order for vector elements so that the full fast path can fire
-        from optyx.problem import _variable_order_key
-        vs.sort(key=_variable_order_key)
-        mode = rng.random()
-        V = list(vs)
-        if mode < 0.3:
-            rng.shuffle(V)
-        elif mode < 0.55:
-            V = V + [Variable(f"extra{j}") for j in range(rng.randint(1, 2))]
-            if rng.random() < 0.5:
+        if i < len(fixed):
+            es, V = [fixed[i][0]], list(fixed[i][1])
+        else:
+            try:
+                es = special_exprs(g) if rng.random() < 0.6 else [g.expr(rng.choice([2, 3])) for _ in range(rng.randint(1, 3))]
+            except Exception as ex:
+                errors["gen:" + type(ex).__name__] = errors.get("gen:" + type(ex).__name__, 0) + 1
+                continue
+            allv = {}
+            for e in es:
+                for v in e.get_variables():
+                    allv[v.name] = v
+            vs = [allv[k] for k in sorted(allv)]
+            # natural problem order for vector elements so that the full fast path can fire
+            from optyx.problem import _variable_order_key
+            vs.sort(key=_variable_order_key)
+            mode = rng.random()
+            V = list(vs)
+            if mode < 0.3:
                 rng.shuffle(V)
+            elif mode < 0.55:
+                V = V + [Variable(f"extra{j}") for j in range(rng.randint(1, 2))]
+                if rng.random() < 0.5:
+                    rng.shuffle(V)
         if not V:
             continue
         S = ser.Ser()
